@@ -128,7 +128,11 @@ func (c10) Run(ts *tape.Set, tier Tier) *Result {
 
 	switch kind {
 	case 0:
-		spec := gen.DrawFileSpec(shape, gen.FileOpts{MaxSize: 8 << 10, OnlyBuilder: true})
+		maxSize := 8 << 10
+		if tier == Thorough {
+			maxSize = 64 << 10
+		}
+		spec := gen.DrawFileSpec(shape, gen.FileOpts{MaxSize: maxSize, OnlyBuilder: true})
 		seed := shape.Raw()
 		if seed%16 == 0 && strings.HasPrefix(spec.Chunker, "size-262144") || spec.Chunker == "" || spec.Chunker == "default" {
 			if seed%3 == 0 {
@@ -237,6 +241,9 @@ func (c10) Run(ts *tape.Set, tier Tier) *Result {
 			return l
 		}
 		nPerm := 3
+		if tier == Thorough {
+			nPerm = 5
+		}
 		switch kind {
 		case 1:
 			sc.Kind = "BuildUnixFSDirectory"
